@@ -20,11 +20,14 @@ pub struct Case {
     pub q: Joints,
     pub entry: Entry,
     pub j6: f64,
+    /// history variant: the previous vector (q) already holds the requested tool point, but the requested tool
+    /// axis is tilted by this angle about the tool's x axis (0 = the request is FK(q) itself)
+    pub tilt: f64,
 }
 
 impl Case {
     fn json(&self) -> Value {
-        json!({"stack": self.stack.to_json(), "q": nums(&self.q), "entry": self.entry.name(), "j6": num(self.j6)})
+        json!({"stack": self.stack.to_json(), "q": nums(&self.q), "entry": self.entry.name(), "j6": num(self.j6), "tilt": self.tilt})
     }
     fn from_json(v: &Value) -> Case {
         Case {
@@ -32,6 +35,7 @@ impl Case {
             q: as_arr6(&v["q"]),
             entry: Entry::from_name(v["entry"].as_str().unwrap()),
             j6: as_num(&v["j6"]),
+            tilt: v["tilt"].as_f64().unwrap_or(0.0),
         }
     }
 }
@@ -53,10 +57,13 @@ pub fn eval(c: &Case) -> (Vec<(String, String)>, usize, bool) {
         return (fails, 0, false);
     };
     let k = c.stack.build();
-    let want = c.stack.model_fk(&c.q);
+    let mut want = c.stack.model_fk(&c.q);
+    if c.tilt != 0.0 {
+        want = Iso::new(mmul(&want.r, &rotx(c.tilt)), want.t);
+    }
     let mut prev = c.q;
     prev[5] = c.j6;
-    let tag = format!("{}/dof{}/{}", c.entry.name(), p.dof, c.stack.shape());
+    let tag = format!("{}/dof{}/{}{}", c.entry.name(), p.dof, c.stack.shape(), if c.tilt != 0.0 { "/reorient-in-place" } else { "" });
     let sols = match call(k.as_ref(), c.entry, &to_na(&want), &prev, c.j6) {
         Ok(s) => s,
         Err(m) => {
@@ -90,7 +97,7 @@ pub fn eval(c: &Case) -> (Vec<(String, String)>, usize, bool) {
     let inner = c.stack.inner_joints(&c.q);
     let flange = fkref::fk(p, &inner);
     let th = fkref::internal_angles(p, &inner);
-    let regular = expected_branches(p, &flange).is_some() && th[4].sin().abs() > 1e-3;
+    let regular = c.tilt == 0.0 && expected_branches(p, &flange).is_some() && th[4].sin().abs() > 1e-3;
     if regular {
         let mut orig = c.q;
         orig[5] = want_j6;
@@ -169,18 +176,24 @@ pub fn run(ctx: &Ctx) -> Report {
                 if !thorough && entry != Entry::Inverse && (ji + idx as usize) % 3 != 0 {
                     continue;
                 }
-                let c = Case { stack: stack.clone(), q, entry, j6: *j6 };
-                let (fails, nsol, ran) = eval(&c);
-                if !ran {
-                    continue;
-                }
-                r.transitions += 1;
-                r.sig(format!("{}:dof{}:{}:{}", entry.name(), p.dof, stack.shape(), nsol));
-                if (idx + ji as u64) % 300_007 == 0 {
-                    r.sample(|| c.json());
-                }
-                for (k, d) in fails {
-                    r.fail(k, idx, c.json(), d);
+                for tilt in [0.0, 0.35, -2.0] {
+                    // the tilted requests matter where a previous vector is consulted
+                    if tilt != 0.0 && !(entry.uses_prev() && (thorough || (ji + idx as usize) % 2 == 0)) {
+                        continue;
+                    }
+                    let c = Case { stack: stack.clone(), q, entry, j6: *j6, tilt };
+                    let (fails, nsol, ran) = eval(&c);
+                    if !ran {
+                        continue;
+                    }
+                    r.transitions += 1;
+                    r.sig(format!("{}:dof{}:{}:{}:{}", entry.name(), p.dof, stack.shape(), nsol, if tilt != 0.0 { "tilted" } else { "fk" }));
+                    if (idx + ji as u64) % 300_007 == 0 {
+                        r.sample(|| c.json());
+                    }
+                    for (k, d) in fails {
+                        r.fail(k, idx, c.json(), d);
+                    }
                 }
             }
         }
@@ -188,7 +201,8 @@ pub fn run(ctx: &Ctx) -> Report {
     rep.traces_validated = rep.transitions;
     rep.rule = "robots R (dof 5 and 6, one with J6 sign 0) x stacks {bare, axial tool, z-shift tool, base, base>tool, tool>base} x theta lattice x \
                 J6 alphabet {0,0.55,-3,pi,7.5,1e3} x entry points; oracle: tool point/axis through the stack's reference FK, J6 bit-equal to the \
-                caller's, originating J1..J5 present and answer list non-empty when the configuration is regular; \
+                caller's, originating J1..J5 present and answer list non-empty when the configuration is regular; history variant for the \
+                continuing entry points: previous = q already at the requested tool point, requested axis tilted by {0.35, -2.0} rad (soundness clauses only); \
                 signature = (entry, dof, stack shape, number of answers)".into();
     rep.set("axes", json!({"robots": robots.len(), "stacks": nst, "theta_axis_sizes": ax.iter().map(|a| a.len()).collect::<Vec<_>>(), "j6": J6S.to_vec()}));
     rep.assumptions.push("lattice-relative: values outside the printed axes are not covered".into());
